@@ -72,6 +72,9 @@ fn placer(case: &Value) -> Value {
             top.places.push(Placeable::Instance(p.clone()));
         }
     }
+    // array instances with equal definitions share ONE definition object (unless the case says `share_defs: false`)
+    let share = case.get("share_defs").and_then(|v| v.as_bool()).unwrap_or(true);
+    let mut defs: std::collections::HashMap<String, Ptr<t::array::Array>> = Default::default();
     for a in geta(case, "arrays") {
         let sepxy = (a["sep"][0].as_i64().unwrap() as isize, a["sep"][1].as_i64().unwrap() as isize);
         let mk_sep = |s: (isize, isize)| Separation::new(
@@ -83,7 +86,9 @@ fn placer(case: &Value) -> Value {
                 count: geti(inner, "count") as usize, sep: mk_sep((inner["sep"][0].as_i64().unwrap() as isize, inner["sep"][1].as_i64().unwrap() as isize)) })),
         };
         let arr = t::array::Array { name: "arrdef".into(), unit, count: geti(a, "count") as usize, sep: mk_sep(sepxy) };
-        let ai = t::array::ArrayInstance { name: gets(a, "name").into(), array: Ptr::new(arr),
+        let key = format!("{}|{}|{}|{}", a["cell"], a["count"], a["sep"], a["inner"]);
+        let def = if share { defs.entry(key).or_insert_with(|| Ptr::new(arr)).clone() } else { Ptr::new(arr) };
+        let ai = t::array::ArrayInstance { name: gets(a, "name").into(), array: def,
             loc: (a["xy"][0].as_i64().unwrap() as isize, a["xy"][1].as_i64().unwrap() as isize).into(), reflect_vert: getb(a, "rv"), reflect_horiz: getb(a, "rh") };
         top.places.push(Placeable::Array(Ptr::new(ai)));
     }
